@@ -424,6 +424,7 @@ void h_pool(void)
 '''
 
 BODY_RULES = [
+    X.if_with_declaration,
     X.split_auto_declarators,
 ] + X.COMMON_RULES
 
